@@ -162,6 +162,9 @@ type Disk struct {
 	// fault plan
 	FailWrite map[int]bool // ordinal numbers (1-based, counted over the disk's life) of writes that return an error and are not applied
 	FailRead  map[int]bool // same for point reads
+	// ReadLimit > 0: point reads beyond this ordinal fail. A store whose (corrupted) content makes a trie
+	// cyclic would otherwise send an unbounded traversal into a stack overflow no harness can recover from.
+	ReadLimit int
 	// Corrupt, when set, is applied to every value returned by a point read or iterator of cf 0
 	Corrupt func(key, val []byte) []byte
 
@@ -308,6 +311,10 @@ func (d *Disk) read(cf int, k []byte) ([]byte, error) {
 	d.mu.Lock()
 	defer d.mu.Unlock()
 	d.St.Reads++
+	if d.ReadLimit > 0 && d.St.Reads > d.ReadLimit {
+		d.St.ReadErrs++
+		return nil, ErrInjected
+	}
 	if d.FailRead[d.St.Reads] {
 		d.St.ReadErrs++
 		return nil, ErrInjected
